@@ -115,7 +115,7 @@ var operands = []string{
 	"l[0]", "l[2]", "pl[0]", "il[0]", "ll[0]", "m.a", "m.b", `m["zz"]`, "st.A", "st.C", "*p", "&i", "&l", "id(i)", "id(l)", "id(nil)", "id(p)", "id(ch)", "id(fn)", "[p][0]", "[ch][0]", "[fn][0]", "[mod][0]", "(true ? tl : nil)", "(nil ?? tm)",
 	// values of every basic type a script can name (unsigned, narrow and float32 ones among them)
 	"make(uint)", "make(uint32)", "make(uint64)", "make(byte)", "make(rune)", "make(int)", "make(int32)", "make(float32)", "make([]byte, 2)", "make([]byte, 2)[0]", "[]uint64{1, 18446744073709551615}[1]", "[]byte{255}[0]", "[]float32{1.5}[0]", "[]int32{-1}[0]", "[]uint{3}", "map[uint64]byte{}", "toByteSlice(\"ab\")[0]", "toRuneSlice(\"ab\")[1]",
-	"func() { return 1 }", "func(a) { return a }", "func(a...) { return a }", "mod.g", "mod.x", "keys", "typeOf", "boom", "boomv", "cb", "each", "arr", "takesInt", "takesStrs", "import(\"strings\")", "import(\"strings\").Repeat",
+	"nerr()", "verr()", "nstr()", "nerr2(1)", "nerr2(1)[1]", "nerr", "func() { return 1 }", "func(a) { return a }", "func(a...) { return a }", "mod.g", "mod.x", "keys", "typeOf", "boom", "boomv", "cb", "each", "arr", "takesInt", "takesStrs", "import(\"strings\")", "import(\"strings\").Repeat",
 }
 
 var templates = []string{
@@ -163,6 +163,19 @@ var templates = []string{
 	// operation uses another (float vs truncated integer, string vs parsed number) shows here
 	"%n + %n", "%n - %n", "%n * %n", "%n / %n", "%n %% %n", "%n & %n", "%n | %n", "%n << %n", "%n >> %n", "%n < %n", "%n == %n", "-%n", "^%n",
 	"x = %n\nx += %n\nx -= %n\nx *= %n\nx /= %n\nx", "x = %n\nx++\nx--\nx", "make([]int64, %n)", "l[%n]", "l[%n:%n]", "\"ab\" * %n", "for x in %n { }", "toInt(%n) %% toInt(%n)", "toInt(%n) %% toFloat(%n)",
+	// stores into strings at number-like indexes, values of a script-function TYPE that are not script functions,
+	// pointer-typed channels carrying nil pointers through for-in
+	"x = \"abc\"\nx[%n] = %s", "s[%n] = %n", "x = \"abc\"\nx[%n:%n] = %s", "m.s = \"ab\"\nm.s[%n] = \"x\"", "st.B = \"ab\"\nst.B[%n] = %s",
+	"make(type TF, func() { })\nx = make(TF)\nx()", "make(type TF, func(a) { return a })\nx = make(TF)\nx(%s)", "make(type TF, func() { })\nx = make([]TF, 1)\ny = x[0]\ny()", "make(type TF, func() { })\nx = make([]TF, 1)\nx[0] = %s\ny = x[0]\ny()",
+	"make(type TF, func(a, b) { })\nx = make(map[string]TF)\nx.k = %s\nx.k(%s, %s)", "make(type TF, func() { })\ngo make(TF)()", "make(type TF, func() { })\ndefer make(TF)()", "make(type TF, %s)\nx = make(TF)\nx(%s)",
+	"pc = make(chan *int64, 2)\npc <- nil\npc <- %s\nclose(pc)\nfor x in pc { y = [x]; {\"k\": x}; id(x) }", "pc = make(chan *int64, 1)\npc <- nil\nclose(pc)\nr = nil\nfor x in pc { r = x }\nr", "pc = make(chan []int64, 1)\npc <- nil\nclose(pc)\nfor x in pc { len(x); x[%n] }",
+	"pc = make(chan *int64, 1)\npc <- nil\nx = <-pc\n[x, *x]", "pc = make(chan map[string]int64, 1)\npc <- nil\nclose(pc)\nfor x in pc { x.k = 1 }",
+	// script goroutines that share scopes only: one keeps defining types, the others keep resolving type names
+	"go func() { for ci = 0; ci < 1500; ci++ { make(type TQ, ci) } }()\nfor cj = 0; cj < 1500; cj++ { make(int64); make([]string, 1) }", "func tw() { for ci = 0; ci < 1500; ci++ { make(type TW, ci) } }\ngo tw()\ngo func() { for ck = 0; ck < 1500; ck++ { new(int64) } }()\nfor cj = 0; cj < 1500; cj++ { x = []int64{cj} }",
+	// nil values of interface types with methods, as Go functions return them
+	"nerr().Error()", "x = nerr()\nx.Error()", "x = nstr()\nx.String()", "x = nerr()\nx.Error = %s", "x, y = nerr2(%s)\ny.Error()", "x = nerr()\n%s(x)", "x = nerr()\nx.%s", "x = nerr()\n[x == nil, x == %s, len(x), x[0], *x, &x, -x, !x, x + 1]", "x = nerr()\nfor y in x { }", "x = nerr()\nx()", "x = nstr()\nthrow x", "x = nerr()\nswitch x { case nil: 1 }", "x = nerr()\n{x: 1}\nm[x] = 1", "l[0] = nerr()\nl[0].Error()", "x = verr()\nx.Error()\nx.zz\nx.Error = 1",
+	"go func() { for ck = 0; ck < 3000; ck++ { make(int64); new(string) } }()\ngo func() { for ck = 0; ck < 3000; ck++ { x = []int64{ck} } }()\nfor cj = 0; cj < 3000; cj++ { make(type TQ, cj) }",
+	"func rd() { for ck = 0; ck < 3000; ck++ { make([]string, 1) } }\ngo rd()\ngo rd()\nfor cj = 0; cj < 3000; cj++ { make(type TQ, %s) }", "module tm { func rd() { for ck = 0; ck < 3000; ck++ { make(int64) } } }\ngo tm.rd()\nfor cj = 0; cj < 3000; cj++ { make(type TQ, cj)\n make(type TR, \"s\") }",
 	"try { %s(%s) } catch e { e.Error() }", "try { throw %s } catch e { e = %s }", "module m2 { a = %s }; m2.a(%s)", "x = %s; x.y = %s", "x = %s; x[0] = %s; x",
 }
 
